@@ -443,3 +443,6 @@ func InModule(fn *ssa.Function) bool {
 	f := fn.Prog.Fset.Position(fn.Pos()).Filename
 	return !strings.HasSuffix(f, ".pb.go")
 }
+
+// LockOp classifies an instruction as a mutex operation: the lock's access path and Lock/RLock/Unlock/RUnlock.
+func LockOp(in ssa.Instruction) (path string, op string, ok bool) { return lockOp(in) }
